@@ -115,7 +115,9 @@ Inductive cfrom : Type :=
 | FromFrame (l : list (lbl * lbl))
 | FromMatrix (m : list (list Z)) (labels : option (list lbl * list lbl))
 | FromBipGraph (n : nat) (links : list (nat * nat))
-| FromHif (h : hif).
+| FromHif (h : hif)
+| FromEdgeLines (l : list (list lbl)).      (* parse_edgelist: one add_edge per line *)
+Definition from_edge_lines (l : list (list lbl)) : res := loop (fun s m => add_edge m None [] s) l hg_empty.
 Definition from_repr (f : cfrom) : res :=
   match f with
   | FromList l => from_hyperedge_list l
@@ -125,6 +127,7 @@ Definition from_repr (f : cfrom) : res :=
   | FromMatrix m lb => from_incidence_matrix m lb
   | FromBipGraph n links => from_bipartite_graph n links
   | FromHif h => from_hif h
+  | FromEdgeLines l => from_edge_lines l
   end.
 
 (* representation equality: member sets as sets, record lists as sets, pairs in order for the
